@@ -29,15 +29,18 @@ def instances(tier):
     for kind in (0, 1):
         out.append({'entry': 'h_two_clients', 'group': 'conc', 'params': [1, kind, 3 if q else 5],
                     'bound': 'two clients in flight against HttpServer on SocketServer (accept thread + 2 handler threads), %s of %d symbolic bytes each; every interleaving with at most %d preemption(s) at system calls and atomic operations, fair hand-over at time-outs' % (('file bodies', 'byte bodies')[kind], 3 if q else 5, 1)})
+    for rq, rs, fl in ([(16001, 0, 0), (0, 16001, 1), (16000, 16000, 1), (15999, 32001, 0)] if q else [(16001, 0, 0), (16000, 5, 0), (15999, 16001, 0), (0, 16001, 1), (16000, 16000, 1), (0, 15999, 1), (15999, 32001, 0), (32001, 32000, 1)]):
+        out.append({'entry': 'h_big', 'params': [rq, rs, fl], 'opts': {'maxsteps': 60000000},
+                    'bound': 'request body of %d bytes, response %s of %d bytes; the bytes at offsets 0, 15999, 16000, 16001 and the last one are symbolic' % (rq, 'file' if fl else 'byte body', rs)})
     for f0 in (0, 1, 2):
         for f1 in (0, 1, 2):
             out.append({'entry': 'h_keepalive', 'params': [f0, f1], 'bound': 'two requests back to back on one kept-alive server connection, framing %s then %s, symbolic bodies and query values' % (('no body', 'Content-Length', 'chunked')[f0], ('no body', 'Content-Length', 'chunked')[f1])})
     return out
 
 
-BOUNDS = {'quick': 'one request/response exchange between Http::request and HttpServer::serve(Socket): request bodies of 0/1/3 symbolic bytes, responses of 0/1/4 symbolic bytes as byte body, 201, JSON, file, chunk-framed stream; every range b != e with b <= 7, e <= 8 on a 6-byte file (subset); symbolic printable header and query values',
+BOUNDS = {'quick': 'one request/response exchange between Http::request and HttpServer::serve(Socket): request bodies of 0/1/3 symbolic bytes, responses of 0/1/4 symbolic bytes as byte body, 201, JSON, file, chunk-framed stream; bodies of 15999-32001 bytes across the 16000-byte block edges; every range b != e with b <= 7, e <= 8 on a 6-byte file (subset); symbolic printable header and query values',
           'thorough': 'request bodies to 8 bytes, responses to 8 bytes, every range b != e with b <= 9, e <= 10 on an 8-byte file'}
-OUTSIDE = ['bodies longer than 8 bytes (the 16000/128000-byte block boundaries are not reached)', 'more than two concurrent clients, more than 2 preemptions, races between plain accesses',
+OUTSIDE = ['bodies with more than 8 (small) resp. 5 (large) symbolic bytes; sizes other than those around the 16000-byte receive/file block and twice that; the 128000-byte send block', 'more than two concurrent clients, more than 2 preemptions, races between plain accesses',
            'kept-alive client connections (Http::request always opens a fresh one; the server side of a kept-alive connection is covered with a raw client)', 'redirects, TLS, multipart uploads, real sockets and timeouts']
 ASSUMPTIONS = ['sockets = env/vsock.c (connect() pairs the client with a server socket, the registered server callback runs to completion when the client first waits for input, then the peer is closed)',
                'files = env/vstdio.c; getaddrinfo returns one IPv4 address; clock advances per query']
